@@ -95,8 +95,11 @@ func twice(f func() error) func(env *tenv) (string, string, string) {
 	}
 }
 
+// tTimeout bounds every Client call (context and Client.Timeout); the stalled-broker runs shorten it.
+var tTimeout = 2 * time.Second
+
 func ctx3() (context.Context, context.CancelFunc) {
-	return context.WithTimeout(context.Background(), 2*time.Second)
+	return context.WithTimeout(context.Background(), tTimeout)
 }
 
 func tscenarios() []tscenario {
@@ -300,7 +303,7 @@ func newEnv() *tenv {
 		b.Append(connfake.Msg{Key: "k", Value: fmt.Sprintf("seed%d", i)})
 	}
 	tr := &kafka.Transport{Dial: b.Dial, DialTimeout: 2 * time.Second, IdleTimeout: 30 * time.Second, MetadataTTL: 40 * time.Millisecond, ClientID: "verif"}
-	return &tenv{b: b, tr: tr, cl: &kafka.Client{Addr: taddr, Transport: tr, Timeout: 2 * time.Second}}
+	return &tenv{b: b, tr: tr, cl: &kafka.Client{Addr: taddr, Transport: tr, Timeout: tTimeout}}
 }
 
 func eventsString(evs []kafka.VerifEvent) string {
@@ -335,7 +338,18 @@ func eventsString(evs []kafka.VerifEvent) string {
 // runT runs one scenario with the cut at k (k < 0: no cut) and returns the case line, the trace line and the
 // length of the frame that was (or would have been) cut.
 func runT(s *tscenario, k int) (impl string, trace string, frameLen int) {
+	return runTS(s, k, false)
+}
+
+// runTS: stall = the broker goes silent after the k bytes instead of dropping the connection; the Client's timeout
+// (400 ms in these runs) is what ends the call.
+func runTS(s *tscenario, k int, stall bool) (impl string, trace string, frameLen int) {
+	if stall {
+		defer func(d time.Duration) { tTimeout = d }(tTimeout)
+		tTimeout = 400 * time.Millisecond
+	}
 	env := newEnv()
+	env.b.SetStall(stall)
 	kafka.VerifStart()
 	if k >= 0 {
 		env.b.Cut(s.key, s.nth, k)
@@ -446,6 +460,7 @@ func multiPart(out *bufio.Writer, r *rand.Rand, thorough bool) (n int) {
 //
 //	sm <api> <cut key> <parts> <frame len> <k>\t<call> <entries>     strict merges: error, or ALL entries
 //	lo3 <cut broker|none> <frame len> <k>\t<call> <p0 last:err> <p1 last:err> <p2 last:err>
+//
 // badTotal counts hung / failing end-to-end cases over all scenario families: each one costs its watchdogs, a handful
 // is enough for the replay, so every family stops generating once the budget is spent.
 var badTotal int
@@ -630,6 +645,36 @@ func transportPath(out *bufio.Writer, r *rand.Rand, thorough bool) (n int, slowe
 			}
 			fmt.Fprintf(out, "tp %s %d %d\t%s\n", s.name, flen, k, impl)
 			fmt.Fprintf(out, "tt %s %d %s\taccept\n", s.name, k, trace)
+			n++
+		}
+	}
+	return
+}
+
+// transportStall: the Client scenarios against a broker that goes silent after k bytes of the response: the call ends
+// with an error when the Client's timeout expires, the follow-up calls succeed on another connection.
+func transportStall(out *bufio.Writer, r *rand.Rand, thorough bool) (n int) {
+	for _, s := range tscenarios() {
+		s := s
+		if !strings.HasPrefix(s.name, "client.") || badTotal >= badBudget {
+			continue
+		}
+		_, _, flen := runT(&s, -1)
+		if flen == 0 {
+			continue
+		}
+		ks := []int{0, 4 + r.Intn(flen-4)}
+		if !thorough {
+			ks = []int{ks[r.Intn(2)]}
+		}
+		for _, k := range ks {
+			t0 := time.Now()
+			impl, trace, _ := runTS(&s, k, true)
+			if f := strings.Fields(impl); len(f) == 4 && (f[1] != "ok" || f[0] == "hang" || time.Since(t0) > 2500*time.Millisecond) {
+				badTotal++
+			}
+			fmt.Fprintf(out, "tp %s/stall %d %d\t%s\n", s.name, flen, k, impl)
+			fmt.Fprintf(out, "tt %s/stall %d %s\taccept\n", s.name, k, trace)
 			n++
 		}
 	}
